@@ -93,6 +93,7 @@ func runC17(c *kit.Ctx) {
 	reqs = append(reqs, "/", "", "/abc", "/a/../b/x", "/ab/x", "/abx", "/a/bx")
 	urls := []string{"rtsp://cam%d/base", "rtsp://cam%d/base/", "rtsp://u:p@cam%d:8554", "rtsp://cam%d/"}
 
+	c17Concurrent(c) // lookups concurrent with table edits (c17_conc.go)
 	reps := c.Pick(16, 64)
 	ntables := c.Pick(2500, 60000)
 	exhaustiveSubsets := 0
